@@ -41,7 +41,7 @@ CHAINS = {
     L + "question_mark": [(("expr", "E0"), ("emit_switch", None)), (("emit_switch", None), ("return_value", None))],
     L + "r#return": [(("expr", "OE"), ("return_value", None))],
     L + "access": [(("expr", "E0"), ("assign_to_var", None))],
-    L + "normalized_function_call": [(("do_assign", "RECV"), ("closure-visit", "ARGS"))],
+    L + "normalized_function_call": [(("STORE", "RECV"), ("VISIT", "ARGS"))],
     LM + "r#match": [(("expr", None), ("emit_switch", None))],
 }
 
@@ -160,6 +160,44 @@ def events(b, defs, callee_name, key_prefix):
     return out
 
 
+_STORERS = {}
+
+
+def storing_calls(F):
+    """Names of Lowerer methods that store a lowered value into a variable: do_assign / assign_to_var and every helper that hands one
+    of its `mir::Value` parameters on to them."""
+    if id(F) in _STORERS:
+        return _STORERS[id(F)]
+    out = {"do_assign", "assign_to_var"}
+    for _ in range(2):
+        for b in F.bodies_in(["src/mir/lower.rs", "src/mir/lower/match_expr.rs"]):
+            if not b.mir or "Lowerer" not in b.path or hir.last(b.path) in out:
+                continue
+            vals = [i for i in range(2, b.mir["argc"] + 1) if b.mir["locals"][i]["ty"] == "mir::Value"]
+            if not vals:
+                continue
+            defs = mir.Defs(b)
+            for bi, t in mir.calls(b):
+                if hir.last(mir.callee(t)) in out and any(mir.is_place_op(a) and mir.origin_key(b, defs, a[1]) in {"arg%d" % i for i in vals} for a in t["args"]):
+                    out.add(hir.last(b.path))
+    _STORERS.clear()
+    _STORERS[id(F)] = out
+    return out
+
+
+def _events(F, b, defs, kind, key):
+    if kind == "closure-visit":
+        return closure_visit_events(F, b, defs, key)
+    if kind == "STORE":
+        out = []
+        for nm in sorted(storing_calls(F)):
+            out += events(b, defs, nm, key)
+        return sorted(set(out))
+    if kind == "VISIT":
+        return sorted(set(closure_visit_events(F, b, defs, key) + events(b, defs, "expr", key)))
+    return events(b, defs, kind, key)
+
+
 def rule_o1(F):
     r = RuleResult("C08.O1", "visit order in the MIR lowerer: left before right, receiver before arguments, condition before branches, loops re-enter at the condition", floor=24)
     for fn, chains in CHAINS.items():
@@ -176,8 +214,8 @@ def rule_o1(F):
             if (e1[1] and k1 is None) or (e2[1] and k2 is None):
                 r.missing("%s parameter %s/%s" % (hir.last(fn), e1[1], e2[1]))
                 continue
-            ev1 = closure_visit_events(F, b, defs, k1) if e1[0] == "closure-visit" else events(b, defs, e1[0], k1)
-            ev2 = closure_visit_events(F, b, defs, k2) if e2[0] == "closure-visit" else events(b, defs, e2[0], k2)
+            ev1 = _events(F, b, defs, e1[0], k1)
+            ev2 = _events(F, b, defs, e2[0], k2)
             key = "%s: %s(%s) before %s(%s)" % (hir.last(fn), e1[0], e1[1] or "", e2[0], e2[1] or "")
             r.inst(key, {"fn": hir.last(fn), "first": [e1[0], e1[1], ev1], "then": [e2[0], e2[1], ev2]})
             if not ev1 or not ev2:
